@@ -151,11 +151,11 @@ PROPS = {
         'assumptions': [],
     },
     'C18': {
-        'modules': [],
+        'modules': ['SE.Props.C18'],
         'streams': [{'component': 'frame', 'note_kinds': {'frame'}}, {'component': 'udpq'}],
-        'level': 'translation_validation',
+        'level': 'proof',
         'trusted_base': ["bufio.Reader.ReadLine (4096-byte buffer) modelled from the Go standard library source at the level of buffer + chunks", "the kernel delivers loopback datagrams intact and TCP bytes in order; real TCP segmentation is whatever the kernel does with the generated writes", "goroutine scheduling of reader/processor and concurrent TCP connections are not in the model (partial)"],
-        'assumptions': [_TV_NOTE],
+        'assumptions': [],
     },
     'C20': {
         'modules': ['SE.Props.C20'],
